@@ -13,6 +13,10 @@ CHECKS = {
             "Exception-class monitor at Packet.from_file/from_port/from_dict + Message() over corpus lines, 1-3-edit mutants, regex-sampled payloads of every known verb/code and gateway chatter; differential stream monitor (stream with junk vs without) through the real FileTransport (dict and text file), PortTransport on a fake serial port and MqttTransport on a fake paho client; partition monitor (every single cut incl. CR|LF, 1-byte reads, random cuts, empty reads) on the real serial read path. Held = no foreign exception class, no replay ended with an error, valid lines always delivered in order, identical frames for every partition, on everything explored.",
             "ValueError on a non-empty datable line is counted, not judged (the receive path rejects it cleanly); MQTT envelopes are well-formed; serial/MQTT OS layers are replaced by doubles at the pyserial/paho boundary.",
             "exception-class monitor + differential (metamorphic) stream/partition monitors on the real transports", "§3 C01"),
+    "C02": ("exploration",
+            "Round-trip monitor: str(Command(f)) == f and str(Packet(rssi+f)) == f with field-wise comparison over the frame grammar (all verbs, seqn forms, three address shapes, device types 00-63, known/unknown codes, payload 1-48 bytes, RSSI forms, comment annotations); CLI short forms against the canonical long form; and a real port gateway writing its packet log through the library's logger, replayed by a real file gateway, comparing the (timestamp, frame) sequences. Held = textual identity on everything explored.",
+            "'Structurally valid' = accepted by COMMAND_REGEX with a legal address set; the undocumented 1-address ' I' CLI form is not judged; log sessions run on a virtual clock with a fake serial port.",
+            "round-trip (parse/print) monitor + log write/replay differential on the real logger and replayer", "§3 C02"),
 }
 NOT_APPLICABLE = []
 
